@@ -51,11 +51,12 @@ impl Outcome {
     }
 }
 
-const REJECTIONS: [&str; 4] = [
+// the three configuration rejections that the unchanged generator reports through generate_join's unwrap (DESIGN §3); "no branch" is
+// NOT one of them: the parser rejects it with a regular diagnostic, so reaching the generator's own zero-branch guard is a panic
+const REJECTIONS: [&str; 3] = [
     "`and_then` or `map` handler should be only provided for `try` `join!`",
     "`then` handler should be only provided for `join!` but not for `try` `join!`",
     "futures_crate_path should be only provided for `async` `join!`",
-    "join should have at least one branch",
 ];
 
 pub static PROGRESS: AtomicU64 = AtomicU64::new(0);
